@@ -140,7 +140,19 @@ pub fn runhist(args: &crate::Args) -> Report {
                     _ => json!({"op": "commit"}),
                 })
             } else { None };
-            let op = if let Some(v) = tomb.clone().filter(|v| !v.is_null()) {
+            // "bigblob" profile: a small document, a 1.2 MiB binary document (stored uncompressed, read through the streaming blob
+            // reader), another small one, commit
+            let bigblob: Option<Value> = if profile == "bigblob" {
+                let token = w.next_token();
+                Some(match i {
+                    2 => json!({"op": "put", "token": token, "uri": "mv2://docs/BigBlob", "ts": 1_700_000_000 + n as i64 * 10, "instant": false, "gen": w.rng.next(), "bin_len": 1_200_000}),
+                    4 => json!({"op": "commit"}),
+                    _ => { let len = w.rng.usize(40, 300); json!({"op": "put", "token": token, "uri": format!("mv2://docs/Small{n}"), "ts": 1_700_000_000 + n as i64 * 10, "instant": false, "gen": w.rng.next(), "text": text_of(&mut w.rng, len, &token)}) }
+                })
+            } else { None };
+            let op = if let Some(v) = bigblob {
+                v
+            } else if let Some(v) = tomb.clone().filter(|v| !v.is_null()) {
                 v
             } else if near_end {
                 json!({"op": "commit"})
@@ -188,7 +200,7 @@ pub fn runhist(args: &crate::Args) -> Report {
             };
             if !step(&mut w, i, &op, &mut contents, &mut states) { break; }
         }
-        if profile == "corpus" || profile == "tiny" || profile == "reuse" || args.flag("final-commit") {
+        if profile == "corpus" || profile == "tiny" || profile == "reuse" || profile == "bigblob" || args.flag("final-commit") {
             let i = states.len();
             let _ = step(&mut w, i, &json!({"op": "commit"}), &mut contents, &mut states);
         }
